@@ -442,7 +442,7 @@ pub fn run(tier: &str, seed: u64) -> i32 {
         tier: tier.into(),
         seed,
         partial: acc.p,
-        rule: "accepted descriptions from each backend's profile. (a) in one process: 5 generations per backend, each after a fresh analysis (fresh HashMap hash keys), give identical text (Java: identical file digests); (b) across processes: pdlc built from the working tree, run 4 times per description and backend, gives byte-identical output, equal to the library call's; (c) derive vs CLI: a harness crate holds, per description, the module produced by #[pdl_inline] and the module included from pdlc's output, and every decode/encode report (values, octets, errors) on generated byte strings and values is compared; (d) exclusion: for unreferenced, parentless declarations (singletons, one pair, one triple) the chunks (syn items / top-level blocks) of the output with --exclude-declaration form a sub-multiset of the full output and everything that changed or disappeared mentions an excluded declaration. Non-trivial: descriptions with >= 2 children (a), every CLI and exclusion case, accepted derive-vs-CLI inputs; distinct by text and relation.".into(),
+        rule: "accepted descriptions from each backend's profile. (a) in one process: 5 generations per backend, each after a fresh analysis (fresh HashMap hash keys), give identical text (Java: identical file digests); (b) across processes: pdlc built from the working tree, run 4 times per description and backend, gives byte-identical output, equal to the library call's; (c) derive vs CLI: a harness crate holds, per description, the module produced by an attribute macro (#[pdl_inline(text)] and #[pdl(\"file\")] alternating) and the module included from pdlc's output, and every decode/encode report (values, octets, errors) on generated byte strings and values is compared; (d) exclusion: for unreferenced, parentless declarations (singletons, one pair, one triple) the chunks (syn items / top-level blocks) of the output with --exclude-declaration form a sub-multiset of the full output and everything that changed or disappeared mentions an excluded declaration. Non-trivial: descriptions with >= 2 children (a), every CLI and exclusion case, accepted derive-vs-CLI inputs; distinct by text and relation.".into(),
         assumptions: vec!["hash seeds differ between processes and between HashMap instances (std RandomState)".into()],
         extra: json!({"derive_pairs": n}),
         wall_s: t0.elapsed().as_secs_f64(),
